@@ -1,5 +1,5 @@
 (* Proofs about Model/AutoXact.v (automated transactions).  Used by Properties_C16.v. *)
-From LedgerV Require Import Base.Prelude Base.Round Model.Amount Model.Xact Model.AutoXact
+From LedgerV Require Import Base.Prelude Base.Round Gen.AutoXactRoot Model.Amount Model.Xact Model.AutoXact
   Proofs.AmountProofs Proofs.RoundProofs Proofs.XactProofs.
 From Coq Require Import Qabs Lqa Setoid.
 Local Open Scope Q_scope.
@@ -150,7 +150,7 @@ Fixpoint process_pure (ord : bool) (pl : pool) (al : aliases) (rules : list rule
   match ds with
   | [] => []
   | DRule r :: ds' => process_pure ord (learn_rule pl r) al (rules ++ [r]) ds'
-  | DAlias n t :: ds' => process_pure ord pl (alias_set n t al) rules ds'
+  | DAlias n t :: ds' => process_pure ord pl (alias_seen n t al) rules ds'
   | DTxn t :: ds' =>
       let pl' := learn_posts pl (t_posts t) in
       let cp := cp_of pl' in
@@ -402,7 +402,7 @@ Definition pool_after (pl : pool) (ds : list directive) : pool :=
                           end) ds pl.
 
 Definition aliases_after (al : aliases) (ds : list directive) : aliases :=
-  fold_left (fun acc d => match d with DAlias n t => alias_set n t acc | _ => acc end) ds al.
+  fold_left (fun acc d => match d with DAlias n t => alias_seen n t acc | _ => acc end) ds al.
 
 (* the results for ds1 do not depend on what follows; what follows sees exactly the rules
    before it, in file order *)
@@ -1015,4 +1015,86 @@ Proof.
     + rewrite <- (count_nulls_perm _ _ Hperm). exact Hn.
     + rewrite <- (existsb_perm same_comm_cost _ _ Hperm). exact Hc.
     + intros c. rewrite <- (Hb c). apply Hz.
+Qed.
+
+(* ------------------------------------------------------------ with and without the second alias round *)
+
+(* the repaired code (alias expansion switched off around the second registration): no alias
+   directive reaches the rule lines' accounts *)
+Lemma alias_seen_never n t al : src_extend_realias = ReAliasNever -> alias_seen n t al = al.
+Proof. intros Hm. unfold alias_seen. rewrite Hm. reflexivity. Qed.
+
+Lemma aliases_after_never : src_extend_realias = ReAliasNever -> forall ds al, aliases_after al ds = al.
+Proof.
+  intros Hm. unfold aliases_after. induction ds as [|d ds IH]; intros al; cbn [fold_left]; [reflexivity|].
+  destruct d as [r|t|n t]; [apply IH | apply IH | rewrite (alias_seen_never n t al Hm); apply IH].
+Qed.
+
+(* then every generated posting has exactly its rule line's account and kind *)
+Definition line_account_stmt : Prop :=
+  forall ord pl ds1 t ds2 xs,
+  let cp := cp_of (learn_posts (pool_after pl ds1) (t_posts t)) in
+  (forall p, In p (t_posts t) -> p_generated p = false) ->
+  nth_error (process ord pl [] [] (ds1 ++ DTxn t :: ds2)) (length (process ord pl [] [] ds1)) = Some (Ok (XAccepted xs)) ->
+  exists ps, finalize ord cp None (t_posts t) = Ok (Accepted ps) /\
+    let base := lift (t_state t) (map (annotate_cost cp) ps) in
+    xs = base ++ flat_map (fun r => contribution cp (t_state t) r (t_payee t) base) (rules_in ds1) /\
+    forall x, In x xs -> rule_made (x_post x) = true ->
+      exists r l, In r (rules_in ds1) /\ In l (r_lines r) /\
+                  p_acct (x_post x) = rl_acct l /\ p_kind (x_post x) = rl_kind l.
+
+Theorem journal_extension_line_accounts : src_extend_realias = ReAliasNever -> line_account_stmt.
+Proof.
+  intros Hm ord pl ds1 t ds2 xs cp Hw H. destruct (journal_extension_spec ord pl [] ds1 t ds2 xs H) as [ps [Hf Hx]].
+  exists ps. split; [exact Hf|]. cbv zeta in *. rewrite (aliases_after_never Hm) in Hx.
+  assert (He : forall r, realias_rule [] r = r) by apply realias_rule_nil.
+  assert (Hx' : xs = lift (t_state t) (map (annotate_cost cp) ps) ++
+                     flat_map (fun r => contribution cp (t_state t) r (t_payee t) (lift (t_state t) (map (annotate_cost cp) ps))) (rules_in ds1)).
+  { rewrite Hx. f_equal. apply flat_map_ext. intros r. rewrite He. reflexivity. }
+  split; [exact Hx'|]. intros x Hin Hrm. rewrite Hx' in Hin. apply in_app_or in Hin as [Hin|Hin].
+  - exfalso. unfold lift in Hin. apply in_map_iff in Hin as [p [<- Hp]]. apply in_map_iff in Hp as [q [<- Hq]].
+    cbn [x_post] in Hrm. rewrite annotate_cost_flags in Hrm.
+    pose proof (finalize_user_made _ _ _ _ _ Hw Hf) as Hu. rewrite Forall_forall in Hu.
+    rewrite (Hu q Hq) in Hrm. discriminate.
+  - apply in_flat_map in Hin as [r [Hr Hc]]. unfold contribution in Hc.
+    apply in_flat_map in Hc as [y [_ Hy]]. apply in_map_iff in Hy as [l [<- Hl]].
+    exists r, l. repeat split; assumption.
+Qed.
+
+(* with the second alias round active (finding F120) the statement fails: `alias T=L:T`,
+   `alias L=D:L`, rule line `(L:T:F) 1` - the account the written `T:F` has at the rule's place -
+   posts to D:L:T:F *)
+Definition realias_witness_stmt : Prop :=
+  exists ds r t xs x,
+    ds = [DAlias [84%Z] [76; 58; 84]%Z; DAlias [76%Z] [68; 58; 76]%Z; DRule r; DTxn t] /\
+    process false [] [] [] ds = [Ok (XAccepted xs)] /\
+    In x xs /\ rule_made (x_post x) = true /\
+    ~ In (p_acct (x_post x)) (map rl_acct (r_lines r)).
+
+Theorem realias_witness : src_extend_realias = ReAliasAlways -> realias_witness_stmt.
+Proof.
+  intros Hm.
+  first [ exfalso; unfold src_extend_realias in Hm; discriminate Hm | idtac ].
+  all: pose (r := mkRule (PAcct [70%Z]) [mkLine [76; 58; 84; 58; 70]%Z PVirtual (Some (mkAmt 1 0%Z false None)) SUncleared]).
+  all: pose (t := mkTxn [120; 49]%Z SUncleared
+                   [mkPost [70%Z] PReal (Some (mkAmt 10 2%Z false (Some [36%Z]))) None None false false false;
+                    mkPost [67%Z] PReal (Some (mkAmt (-10) 2%Z false (Some [36%Z]))) None None false false false]).
+  all: eexists; exists r, t; eexists.
+  all: exists (mkX (mkPost [68; 58; 76; 58; 84; 58; 70]%Z PVirtual (Some (mkAmt 10 2%Z false (Some [36%Z]))) None None false true false) SUncleared).
+  all: split; [reflexivity|]; split; [vm_compute; reflexivity|]; split; [vm_compute; tauto|].
+  all: split; [reflexivity|]; vm_compute; intros [H|[]]; discriminate H.
+Qed.
+
+(* what holds of the code as it is now (the mode is read from the source on every run) *)
+Definition account_stmt_in_force : Prop :=
+  match src_extend_realias with
+  | ReAliasNever => line_account_stmt
+  | ReAliasAlways => realias_witness_stmt
+  | ReAliasUnrecognised => False
+  end.
+
+Theorem account_in_force : account_stmt_in_force.
+Proof.
+  unfold account_stmt_in_force. cbv delta [src_extend_realias]. cbv iota.
+  first [ exact (journal_extension_line_accounts eq_refl) | exact (realias_witness eq_refl) ].
 Qed.
